@@ -20,7 +20,70 @@ import (
 )
 
 var caps = []int{0, 1, 2, 8, 63, 64, 65, 66, 100, 128, 129, 257, 2048, 2049, 2050, 3000, 5000}
-var kinds = []string{"array", "arrayof", "linked", "linkedof", "cow", "cowof", "conc-array", "conc-linked", "conc-cow"}
+var kinds = []string{"array", "arrayof", "linked", "linkedof", "cow", "cowof", "conc-array", "conc-linked", "conc-cow",
+	// the same containers instantiated with an element type that cannot be compared with == and has no useful zero
+	// value test (a struct with a slice field): behaviour must not depend on what the elements are
+	"box-array", "box-linkedof", "box-cow", "box-cowof", "box-conc-cow", "box-conc-array"}
+
+// box: an uncomparable element type; boxList presents a List[box] as the List[int] the rest of the harness drives
+type box struct {
+	v int
+	u []byte
+}
+
+type boxList struct{ l list.List[box] }
+
+func bx(v int) box { return box{v: v, u: []byte{byte(v)}} }
+func bxs(vs []int) []box {
+	out := make([]box, len(vs))
+	for i, v := range vs {
+		out[i] = bx(v)
+	}
+	return out
+}
+func (b boxList) Get(i int) (int, error) { x, err := b.l.Get(i); return x.v, err }
+func (b boxList) Append(ts ...int) error { return b.l.Append(bxs(ts)...) }
+func (b boxList) Add(i int, t int) error { return b.l.Add(i, bx(t)) }
+func (b boxList) Set(i int, t int) error { return b.l.Set(i, bx(t)) }
+func (b boxList) Delete(i int) (int, error) {
+	x, err := b.l.Delete(i)
+	return x.v, err
+}
+func (b boxList) Len() int { return b.l.Len() }
+func (b boxList) Cap() int { return b.l.Cap() }
+func (b boxList) Range(fn func(index int, t int) error) error {
+	return b.l.Range(func(i int, t box) error { return fn(i, t.v) })
+}
+func (b boxList) AsSlice() []int {
+	xs := b.l.AsSlice()
+	if xs == nil {
+		return nil
+	}
+	out := make([]int, len(xs), cap(xs)) // same length and spare capacity: the aliasing probes keep their meaning
+	for i, x := range xs {
+		out[i] = x.v
+	}
+	return out
+}
+
+func mkBox(base string, args []string) list.List[box] {
+	switch base {
+	case "array":
+		cp, _ := strconv.Atoi(args[0])
+		return list.NewArrayList[box](cp)
+	case "arrayof":
+		return list.NewArrayListOf[box](bxs(vlib.ParseInts(args[0])))
+	case "linked":
+		return list.NewLinkedList[box]()
+	case "linkedof":
+		return list.NewLinkedListOf[box](bxs(vlib.ParseInts(args[0])))
+	case "cow":
+		return list.NewCopyOnWriteArrayList[box]()
+	case "cowof":
+		return list.NewCopyOnWriteArrayListOf[box](bxs(vlib.ParseInts(args[0])))
+	}
+	panic("kind " + base)
+}
 
 func gen(tier string, out *vlib.Out) {
 	r := vlib.NewRng(vlib.Seed())
@@ -96,7 +159,7 @@ func gen(tier string, out *vlib.Out) {
 	}
 	for c := 0; c < cases; c++ {
 		kind := vlib.Pick(r, kinds)
-		base := strings.TrimPrefix(kind, "conc-")
+		base := strings.TrimPrefix(strings.TrimPrefix(kind, "box-"), "conc-")
 		n := 0
 		switch {
 		case base == "array":
@@ -209,7 +272,7 @@ func gen(tier string, out *vlib.Out) {
 						}
 						out.Line("append %s", vlib.Ints(xs))
 						n += k
-					case pick < 85 && (base == "cow" || base == "cowof") && !strings.HasPrefix(kind, "conc-") && r.Chance(50):
+					case pick < 85 && (base == "cow" || base == "cowof") && !strings.Contains(kind, "conc-") && r.Chance(50):
 						// one arbitrary re-entrant writer (or reader) call during Range
 						k := r.Range(0, n)
 						switch r.Intn(4) {
@@ -230,7 +293,7 @@ func gen(tier string, out *vlib.Out) {
 						default:
 							out.Line("rangedo %d get %d", k, idx(n-1))
 						}
-					case pick < 85 && (base == "cow" || base == "cowof") && !strings.HasPrefix(kind, "conc-"):
+					case pick < 85 && (base == "cow" || base == "cowof") && !strings.Contains(kind, "conc-"):
 						// re-entrant writers during Range: a copy-on-write list must show the snapshot
 						d := r.Range(0, 2)
 						if d > n {
@@ -330,6 +393,14 @@ func state(l list.List[int]) string {
 }
 
 func mk(kind string, args []string) list.List[int] {
+	if strings.HasPrefix(kind, "box-") {
+		kind = strings.TrimPrefix(kind, "box-")
+		l := mkBox(strings.TrimPrefix(kind, "conc-"), args)
+		if strings.HasPrefix(kind, "conc-") {
+			l = &list.ConcurrentList[box]{List: l}
+		}
+		return boxList{l}
+	}
 	conc := strings.HasPrefix(kind, "conc-")
 	base := strings.TrimPrefix(kind, "conc-")
 	var l list.List[int]
@@ -372,8 +443,8 @@ func run(ops []string, out *vlib.Out, st *stats) {
 				out.Line("%s => %s", line, p)
 				continue
 			}
-			// the protocol names the model by its base kind
-			out.Line("new %s%s => ok %s", strings.TrimPrefix(w[1], "conc-"), argTail(w[2:]), state(l))
+			// (the driver names the model by the base kind: it strips the box- / conc- prefixes)
+			out.Line("new %s%s => ok %s", w[1], argTail(w[2:]), state(l))
 			continue
 		}
 		if l == nil {
